@@ -22,19 +22,25 @@ Inductive ev :=
 | EPn (i p : nat) | EWB (i : nat) | EWE (i : nat) | EWTo (i : nat) | ECx (i : nat)
 | ERR (i k : nat)                                     (* reducer received *)
 | ERW (k : nat) | ERD (k : nat)                       (* before / after writer.Write in the reducer *)
-| ERP (p : nat) | ERE | ERet.                         (* reducer panics / returns; the call returned *)
+| ERP (p : nat) | ERE | ERet                          (* reducer panics / returns; the call returned *)
+| EGW (i : nat) | EGR.                                (* generator waits at its gate before item i / gate released *)
 
 Inductive xout := XRet (k : nat) | XErr (e : err) | XNoOutput | XPanic (p : pval) | XTwice | XNil | XHang | XOther.
 
 Record case := mkcase {
-  c_fn : nat;                    (* 0 MapReduce 1 MapReduceVoid 2 MapReduceChan 3 ForEach 4 Finish 5 FinishVoid *)
+  c_fn : nat;                    (* 0 MapReduce 1 MapReduceVoid 2 MapReduceChan 3 ForEach 4 Finish 5 FinishVoid
+                                    6 a direct stream of Set/Load on an errorx.AtomicError *)
   c_workers : Z;                 (* argument of WithWorkers *)
   c_noopt : bool;                (* WithWorkers not passed *)
   c_items : list (list mact);
   c_gpanic : option nat;
   c_rtake : option nat;
   c_rafter : list ract;
-  c_ctx : nat;                   (* 0 none, 1 done before the call, 2 cancelled by a mapper (ACtx) *)
+  c_ctx : nat;                   (* 0 none, 1 done before the call, 2 cancelled by a mapper (ACtx),
+                                    3 cancelled by the driver while the generator waits at its gate *)
+  c_gate : option nat;           (* the generator blocks before sending this item until the driver releases it *)
+  c_aeops : list aeop;           (* fn 6 *)
+  c_aeobs : list Z;              (* fn 6: per op, Set: 1 ok / -1 panicked; Load: error code, 0 = nil *)
   c_trace : list ev;
   c_out : xout;
   c_leaked : nat;
@@ -212,7 +218,37 @@ Definition spec_ok_gen (skip : nat) (c : case) : bool :=
   match c_out c with XHang | XOther => false | _ => true end &&                         (* the call returns *)
   Nat.eqb (c_leaked c) 0.                                                               (* no goroutine left *)
 
-Definition spec_ok (c : case) : bool := spec_ok_gen 0 c.
+(* errorx.AtomicError, as retErr needs it: Load returns the last error Set, for EVERY non-nil error interface value
+   (typed nils included); Set(nil) changes nothing and never panics; a Set may only panic when an error of another
+   concrete type is already stored (atomic.Value's documented restriction) *)
+Fixpoint ae_spec (cur : option nat) (ops : list aeop) (obs : list Z) : bool :=
+  match ops, obs with
+  | [], [] => true
+  | AESet None :: ops', o :: obs' => Z.eqb o 1 && ae_spec cur ops' obs'
+  | AESet (Some e) :: ops', o :: obs' =>
+      if Z.eqb o 1 then ae_spec (Some e) ops' obs'
+      else Z.eqb o (-1) && match cur with Some c0 => negb (Nat.eqb (ae_type c0) (ae_type e)) | None => false end &&
+           ae_spec cur ops' obs'
+  | AELoad :: ops', o :: obs' =>
+      Z.eqb o (match cur with Some e => Z.of_nat e | None => 0%Z end) && ae_spec cur ops' obs'
+  | _, _ => false
+  end.
+(* the transcription Model.ae_set / ae_load reproduces the observations exactly *)
+Fixpoint ae_model (st : option nat) (ops : list aeop) (obs : list Z) : bool :=
+  match ops, obs with
+  | [], [] => true
+  | AESet e :: ops', o :: obs' =>
+      match ae_set st e with
+      | Ok st' => Z.eqb o 1 && ae_model st' ops' obs'
+      | _ => Z.eqb o (-1) && ae_model st ops' obs'
+      end
+  | AELoad :: ops', o :: obs' =>
+      Z.eqb o (match ae_load st with Some e => Z.of_nat e | None => 0%Z end) && ae_model st ops' obs'
+  | _, _ => false
+  end.
+
+Definition spec_ok (c : case) : bool :=
+  if Nat.eqb (c_fn c) 6 then ae_spec None (c_aeops c) (c_aeobs c) else spec_ok_gen 0 c.
 Definition spec_wo_outcome (c : case) : bool := spec_ok_gen 1 c.
 Definition spec_wo_panic (c : case) : bool := spec_ok_gen 2 c.
 Definition spec_wo_ctx (c : case) : bool := spec_ok_gen 3 c.
@@ -276,7 +312,7 @@ Definition final_match (o : xout) (m : outcome) : bool :=
   | _, _ => first_match o m
   end.
 
-Definition allowed (o : oracle) (s : state) (l : label) : bool :=
+Definition allowed_core (o : oracle) (s : state) (l : label) : bool :=
   match l with
   | LEnv => false
   | LW i =>
@@ -340,21 +376,35 @@ Definition allowed (o : oracle) (s : state) (l : label) : bool :=
       end
   end.
 
-Definition candidates (s : state) : list label :=
-  match c s with COut _ => [LC] | _ => [] end ++      (* the re-check follows the receive at once *)
-  map LW (seq 0 (List.length (ws s))) ++ [LR; LG; LGSendX; LGSendK; LX; LXAcq; LXStop; LC; LCPanic; LCCtx; LCOut].
-
-Fixpoint pick (cf : cfg) (o : oracle) (s : state) (ls : list label) : option state :=
-  match ls with
-  | [] => None
-  | l :: t => if allowed o s l then match step cf s l with Some s' => Some s' | None => pick cf o s t end
-              else pick cf o s t
+(* gate (c_ctx = 3): the generator does not get past its gate before the driver has cancelled the context, and the
+   context is cancelled exactly there - as late as the other threads allow (values the reducer received were written
+   before the cancellation) *)
+Definition at_gate (gate : option nat) (n : nat) (s : state) : bool :=
+  match gate with Some gt => Nat.eqb (List.length (g_rest s)) (n - gt) | None => false end.
+Definition allowed (gated : bool) (gate : option nat) (n : nat) (o : oracle) (s : state) (l : label) : bool :=
+  match l with
+  | LEnv => gated && negb (ctxd s) && at_gate gate n s && rs_committed o s
+  | LGSendX | LGSendK => negb (gated && negb (ctxd s) && at_gate gate n s) && allowed_core o s l
+  | _ => allowed_core o s l
   end.
 
-Fixpoint greedy (cf : cfg) (o : oracle) (fuel : nat) (s : state) : state :=
+Definition candidates (s : state) : list label :=
+  match c s with COut _ => [LC] | _ => [] end ++      (* the re-check follows the receive at once *)
+  map LW (seq 0 (List.length (ws s))) ++ [LR; LG; LGSendX; LGSendK; LX; LXAcq; LXStop; LC; LCPanic; LCCtx; LCOut; LEnv].
+
+Record gatecfg := mkgate { gc_on : bool; gc_at : option nat; gc_n : nat }.
+Fixpoint pick (cf : cfg) (gc : gatecfg) (o : oracle) (s : state) (ls : list label) : option state :=
+  match ls with
+  | [] => None
+  | l :: t => if allowed (gc_on gc) (gc_at gc) (gc_n gc) o s l
+              then match step cf s l with Some s' => Some s' | None => pick cf gc o s t end
+              else pick cf gc o s t
+  end.
+
+Fixpoint greedy (cf : cfg) (gc : gatecfg) (o : oracle) (fuel : nat) (s : state) : state :=
   match fuel with
   | O => s
-  | S f => match pick cf o s (candidates s) with Some s' => greedy cf o f s' | None => s end
+  | S f => match pick cf gc o s (candidates s) with Some s' => greedy cf gc o f s' | None => s end
   end.
 
 Definition same_set (a b : list nat) : bool :=
@@ -371,7 +421,9 @@ Definition model_applicable (c : case) : bool :=
   match c_fn c with 0 | 1 | 2 | 4 => true | _ => false end &&
   match c_out c with XHang | XOther => false | _ => true end.
 
-Definition model_run (c : case) : state := greedy (cfg_of c) (oracle_of c) 3000 (init (cfg_of c)).
+Definition gate_of (c : case) : gatecfg := mkgate (Nat.eqb (c_ctx c) 3) (c_gate c) (nitems c).
+Definition model_run (c : case) : state := greedy (cfg_of c) (gate_of c) (oracle_of c) 3000 (init (cfg_of c)).
 
 Definition model_ok (c : case) : bool :=
-  if model_applicable c then accepted c (model_run c) else true.
+  if Nat.eqb (c_fn c) 6 then ae_model None (c_aeops c) (c_aeobs c)
+  else if model_applicable c then accepted c (model_run c) else true.
